@@ -42,9 +42,17 @@
      last with-pair for it, else - unless "only" - the includer's private, then public binding;
      C11_with_pairs_keys: the pairs are bound under their own names, in order, to values.
    - C11_include_lazy_found / _missing / _empty_name, C11_include_static_missing / _found,
-     C11_include_empty_renders_nothing: a name that does not resolve is error 4, or with
-     if_exists no output, frames and node states unchanged, one logged miss per loader - at
-     run time for computed names, at parse time for literals.
+     C11_include_empty_renders_nothing: a name that NO LOADER HOLDS ([served ... = false],
+     C11_served_false / C11_served_true say what that means) is error 4, or with if_exists no
+     output, frames and node states unchanged, one logged miss per loader - at run time for
+     computed names, at parse time for literals.
+   - C11_if_exists_does_not_hide_errors (fix D41): if_exists forgives only the absence of the
+     named file itself.  If some loader holds the included name and compiling it fails with
+     error 4 (e.g. it refers, further down, to a file that is missing), the include fails with
+     error 4 with or without if_exists - the literal form when the tag is parsed, the computed
+     form when the node is executed.  Before the fix every "not found" raised anywhere below
+     the included file was swallowed and the file rendered as nothing.  Examples
+     C11_example_if_exists_broken_file / _missing_file / _lazy and C11f_example_if_exists_inner_error.
    - C11_literal_equals_computed_name: a literal and a computed name are resolved by the same
      function, the literal against the template that contains the tag, the computed one against
      the BASE of the executing chain; they are the same file name whenever those two live in
@@ -186,7 +194,8 @@ Theorem C11_include_static_fetch : forall se f level args tst g ts fname rest0,
     let '(ifexists, rest) := match match_ident_val rest0 kw_if_exists with Some x => (true, x) | None => (false, rest0) end in
     let iname := resolve_filename (t_isstr tst) (t_name tst) fname in
     match compile_file se f iname g with
-    | Err 4 => if ifexists then Ok (NIncludeEmpty, ts, (tst, log_misses (se_loaders se) iname g)) else Err 4
+    | Err 4 => if ifexists && negb (served (se_loaders se) iname)
+               then Ok (NIncludeEmpty, ts, (tst, log_misses (se_loaders se) iname g)) else Err 4
     | Ok (itpl, g1) =>
         do '(pairs, only, rest') <-
           (match match_ident_val rest kw_with with
@@ -305,6 +314,22 @@ Theorem C11_with_pairs_keys : forall se globals f st pairs vals st1,
 Proof. exact eval_pairs_keys. Qed.
 Print Assumptions C11_with_pairs_keys.
 
+(* [served ls name]: some loader of the list holds the name, i.e. a fetch would find it *)
+Theorem C11_served_false : forall ls path,
+  served ls path = false <-> (forall l, In l ls -> assoc_get (loader_name path) (l_files l) = None).
+Proof. exact served_false_iff. Qed.
+Print Assumptions C11_served_false.
+
+Theorem C11_served_true : forall ls path,
+  served ls path = true <-> exists l c, In l ls /\ assoc_get (loader_name path) (l_files l) = Some c.
+Proof. exact served_true_iff. Qed.
+Print Assumptions C11_served_true.
+
+Theorem C11_served_iff_fetch_finds : forall ls idx path g,
+  served ls path = false <-> fst (resolve_template ls idx path g) = None.
+Proof. exact served_false_fetch_none. Qed.
+Print Assumptions C11_served_iff_fetch_finds.
+
 Theorem C11_include_lazy_found :
   forall se globals f st fr fe pairs only ifx vals st1 fv st2 c fn root rest t g',
     top_frame st = Ok fr ->
@@ -327,6 +352,7 @@ Theorem C11_include_lazy_missing :
     f_chain fr = root :: rest ->
     let iname := resolve_filename (tpl_is_string root) (tpl_name root) (c :: fn) in
     compile_file se f iname (ms_g st2) = Err 4 ->
+    served (se_loaders se) iname = false ->
     exec_node se globals (S f) st (NInclude None (Some fe) pairs only ifx) =
       if ifx then xok [] (mkM (ms_frames st2) (ms_nodes st2) (log_misses (se_loaders se) iname (ms_g st2)))
       else ([], Err 4).
@@ -345,6 +371,7 @@ Print Assumptions C11_include_lazy_empty_name.
 Theorem C11_include_static_missing : forall se f level args tst g ts fname rest0,
   match_string args = Some (fname, rest0) ->
   compile_file se f (resolve_filename (t_isstr tst) (t_name tst) fname) g = Err 4 ->
+  served (se_loaders se) (resolve_filename (t_isstr tst) (t_name tst) fname) = false ->
   tag_parser se (S f) level tagIncludeParser args (tst, g) ts =
     match match_ident_val rest0 kw_if_exists with
     | Some _ => Ok (NIncludeEmpty, ts,
@@ -353,6 +380,30 @@ Theorem C11_include_static_missing : forall se f level args tst g ts fname rest0
     end.
 Proof. exact include_static_missing. Qed.
 Print Assumptions C11_include_static_missing.
+
+(* fix D41: an included file that exists and fails to compile with error 4 is an error even
+   with if_exists - (1) a literal name, when the tag is parsed (whatever follows the name: the
+   result does not depend on rest0); (2) a computed name, when the node is executed (whatever
+   the flag ifx) *)
+Theorem C11_if_exists_does_not_hide_errors :
+  (forall se f level args tst g ts fname rest0,
+     match_string args = Some (fname, rest0) ->
+     let iname := resolve_filename (t_isstr tst) (t_name tst) fname in
+     served (se_loaders se) iname = true ->
+     compile_file se f iname g = Err 4 ->
+     tag_parser se (S f) level tagIncludeParser args (tst, g) ts = Err 4) /\
+  (forall se globals f st fr fe pairs only ifx vals st1 fv st2 c fn root rest,
+     top_frame st = Ok fr ->
+     eval_pairs se globals f st pairs = Ok (vals, st1) ->
+     eval se globals f st1 fe = Ok (fv, st2) ->
+     to_string (vv fv) = Some (c :: fn) ->
+     f_chain fr = root :: rest ->
+     let iname := resolve_filename (tpl_is_string root) (tpl_name root) (c :: fn) in
+     served (se_loaders se) iname = true ->
+     compile_file se f iname (ms_g st2) = Err 4 ->
+     exec_node se globals (S f) st (NInclude None (Some fe) pairs only ifx) = ([], Err 4)).
+Proof. exact tie_if_exists_does_not_hide_errors. Qed.
+Print Assumptions C11_if_exists_does_not_hide_errors.
 
 Theorem C11_include_static_found : forall se f level args tst g ts fname rest0 itpl g1 n r st',
   match_string args = Some (fname, rest0) ->
@@ -425,6 +476,31 @@ Example C11_example_missing_computed :
   api_render_file c11_world [108; 97; 122; 121; 109; 105; 115; 115] (* lazymiss *) [([109] (* m *), str_val [110; 111; 112; 101] (* nope *))] = OExecErr 4 [].
 Proof. vm_compute. reflexivity. Qed.
 
+(* fix D41 on the world d41_world (Spec/SpecComposeExamples.v): one loader, one file
+   b = B{% include "c" %}; c and zz are held by nobody.  The hypotheses of
+   C11_if_exists_does_not_hide_errors hold for b: it is served, and compiling it is error 4 *)
+Example C11_example_if_exists_hypotheses :
+  served (se_loaders (world_senv d41_world)) [98] (* b *) = true /\
+  compile_file (world_senv d41_world) 1000 [98] (* b *) g0 = Err 4 /\
+  served (se_loaders (world_senv d41_world)) [122; 122] (* zz *) = false /\
+  compile_file (world_senv d41_world) 1000 [122; 122] (* zz *) g0 = Err 4.
+Proof. vm_compute. repeat split; reflexivity. Qed.
+
+(* [{% include "b" if_exists %}]: b exists and is broken - a compile error, not "[]" *)
+Example C11_example_if_exists_broken_file :
+  api_render_string d41_world d41_src_b [] = OCompileErr 4.
+Proof. vm_compute. reflexivity. Qed.
+(* [{% include "zz" if_exists %}]: zz is missing - renders [] *)
+Example C11_example_if_exists_missing_file :
+  api_render_string d41_world d41_src_zz [] = OOk [91; 93] (* [] *).
+Proof. vm_compute. reflexivity. Qed.
+(* [{% include n if_exists %}] with n = "b": an execution error after "[" was written;
+   with n = "zz": renders [] *)
+Example C11_example_if_exists_lazy :
+  api_render_string d41_world d41_src_lazy [([110] (* n *), str_val [98] (* b *))] = OExecErr 4 [91] (* [ *) /\
+  api_render_string d41_world d41_src_lazy [([110] (* n *), str_val [122; 122] (* zz *))] = OOk [91; 93] (* [] *).
+Proof. vm_compute. split; reflexivity. Qed.
+
 (* ================= whole compilation: nothing is fetched that is not referenced ================= *)
 (* Property C11, the whole-compilation part: "include, extends, import and ssi obtain exactly the
    templates they name ... through the set's loaders and from nowhere else; ... and no name is
@@ -477,13 +553,11 @@ Proof. vm_compute. reflexivity. Qed.
    in this model (the log is dropped, not threaded, through errors).  The one error that is
    swallowed INSIDE a successful compilation - a literal include with if_exists whose file is
    missing - is covered by the main theorem: what it records are misses for the named file.
-   REMARK ON THE MODEL (example C11f_model_if_exists_log): when an include ... if_exists names
-   a file that EXISTS but whose own compilation fails with "not found" further down, the model
-   replaces the whole nested log by one miss per loader for the named file, although a loader
-   holds it and the real loaders were also asked for the inner missing name.  The names in the
-   log are still reachable names (the theorems hold); but "the hit flag of every entry tells
-   whether that loader holds the name" and "every fetch made is in the log" are false of the
-   model in this corner, so no such statement is claimed here. *)
+   Since fix D41 that is the only case in which if_exists swallows an error: when the named
+   file EXISTS but its own compilation fails with "not found" further down, the whole
+   compilation fails (C11_if_exists_does_not_hide_errors; example
+   C11f_example_if_exists_inner_error), so a successful compilation no longer contains a log
+   in which a held name is recorded as one miss per loader. *)
 Theorem C11_compile_fetches_only_referenced : forall se fuel name g t g',
   compile_file se fuel name g = Ok (t, g') ->
   exists added, log_added g g' added /\
@@ -572,9 +646,10 @@ Example C11f_example_leaf :
   compile_log fx_se fx_deep = Some [LGet 0 fx_deep false; LGet 1 fx_deep true].
 Proof. vm_compute. repeat split; reflexivity. Qed.
 
-(* the remark on if_exists: "a" is held by loader 0, yet the log of compiling m records a miss
-   for it, and the attempt for the inner name "nope" is gone *)
-Example C11f_model_if_exists_log :
+(* if_exists and an inner error (world fy_se: m = {% include "a" if_exists %}, a = {% include
+   "nope" %}, nope nowhere): "a" is held by loader 0 and fails to compile, so compiling m fails
+   with error 4 (before fix D41 it succeeded, with a log that recorded a miss for "a") *)
+Example C11f_example_if_exists_inner_error :
   source_of fy_se [97] (* a *) <> None /\
-  compile_log fy_se [109] (* m *) = Some [LGet 0 [109] true; LGet 0 [97] false].
-Proof. vm_compute. split; [discriminate|reflexivity]. Qed.
+  compile_file fy_se 1000 [109] (* m *) fx_g0 = Err 4 /\ compile_log fy_se [109] (* m *) = None.
+Proof. vm_compute. split; [discriminate|split; reflexivity]. Qed.
